@@ -733,7 +733,7 @@ func ftSync(mem afero.Fs, p string, fw *fwModel) {
 
 func ftWrite(x *X, i int, op ftOp, v efivar.Efivar, p string, c ftCfg, obj *efivarfs.Efivarfs, sfs *SimFs, mem afero.Fs, fw *fwModel) {
 	val := op.Val.Bytes()
-	var marsh efivar.Marshallable = rawVal(val)
+	var marsh efivar.Marshallable = libVal(val, i%2 == 1)
 	if op.Blob && op.API == "obj.WriteVar" {
 		key := fmt.Sprint(op.Val, c.Key)
 		b, ok := ftBlobs[key]
@@ -769,7 +769,7 @@ func ftWrite(x *X, i int, op ftOp, v efivar.Efivar, p string, c ftCfg, obj *efiv
 			err = obj.WriteVar(v, marsh)
 		case "obj.WriteSignedUpdate":
 			pk := Pool()[c.Key%poolSize]
-			err = obj.WriteSignedUpdate(v, rawVal(val), pk.Key, pk.Cert)
+			err = obj.WriteSignedUpdate(v, marsh, pk.Key, pk.Cert)
 		case "legacy.WriteEfivarsWithGuid":
 			err = attributes.WriteEfivarsWithGuid(v.Name, v.Attributes, val, *v.GUID)
 		case "legacy.WriteEfivars":
